@@ -480,21 +480,33 @@ func runC08(c *engine.Ctx) {
 func checkDepthCallback(c *engine.Ctx, rule string, cb, vf *ssa.Function) {
 	key := engine.FuncName(cb)
 	nilReturns := 0
+	type retOutcome struct {
+		r *ssa.Return
+		o engine.Outcome
+	}
+	var outcomes []retOutcome
 	for _, r := range engine.Returns(cb) {
 		if len(r.Results) != 1 {
 			continue
 		}
-		rv := engine.LocalValue(r.Results[0])
+		// a result assembled in a variable (phi) is looked at one assignment at a time
+		for _, o := range engine.ValueOutcomes(engine.LocalValue(r.Results[0]), r.Block()) {
+			outcomes = append(outcomes, retOutcome{r, o})
+		}
+	}
+	for _, ro := range outcomes {
+		r := ro.r
+		rv := engine.LocalValue(ro.o.V)
 		if !engine.IsNilConst(rv) {
 			// must be provably non-nil: a load of a package-level error variable, a MakeInterface, or under err != nil
-			if !provablyNonNilError(rv, r) {
+			if !provablyNonNilError(rv, ro.o.Conds) {
 				c.Undecided(rule, key, r.Pos(), "a return value of the match callback is neither nil nor provably non-nil: "+rv.String())
 				return
 			}
 			continue
 		}
 		nilReturns++
-		conds := engine.InstrConds(r)
+		conds := ro.o.Conds
 		isDepth, leMax := false, false
 		badCmp := ""
 		for _, cond := range conds {
@@ -580,7 +592,7 @@ func isMaxParam(v ssa.Value, vf *ssa.Function) bool {
 	return false
 }
 
-func provablyNonNilError(v ssa.Value, at ssa.Instruction) bool {
+func provablyNonNilError(v ssa.Value, conds []engine.Cond) bool {
 	v = engine.LocalValue(v)
 	switch x := v.(type) {
 	case *ssa.MakeInterface:
@@ -594,7 +606,7 @@ func provablyNonNilError(v ssa.Value, at ssa.Instruction) bool {
 	case *ssa.Const:
 		return x.Value != nil
 	}
-	return engine.KnownNonNil(engine.InstrConds(at), v)
+	return engine.KnownNonNil(conds, v)
 }
 
 func runC08R4(c *engine.Ctx, r4 string) {
